@@ -45,7 +45,7 @@ struct Stats {
 }
 
 fn factorial(n: usize) -> usize {
-    (1..=n).product::<usize>().max(1)
+    (1..=n).fold(1usize, |a, b| a.saturating_mul(b))
 }
 
 /// Every script of a shuffle of n rows (draw k has range n-k), or a catalogue when there are too many.
@@ -154,6 +154,7 @@ fn actions_of(m: &Model, cfg: &Cfg) -> Vec<Act> {
             }
         }
     }
+    a.retain(|x| ops::applicable(&m.ltype, x));
     a
 }
 
@@ -227,7 +228,9 @@ fn main() {
     ctx.set_rule(
         "states = datasets as vectors of tagged rows (record tag 100*(sample+1)+feature, weight 0.5+sample) with target kind, CountedTargets wrapper, names and record memory order; \
          seeds: n in {0,1,2,3,5,6} x f in {1,3} x targets {1-d labels i mod 3, 1-d labels i (thorough), 2-d one column, 2-d two columns} x weights {none, all} x names {none, all}; \
-         plus seeds (n in {1,3,5}, all target kinds, no names) whose owned record / target / weight arrays are slice_move's out of larger allocations (2 poison rows in front, 1 behind; still row-major): all three sliced, targets only, weights only (thorough: records only as well) - any poison value in any result is a violation; \
+         plus layout seeds (n in {1,3,5}; quick {3,5}): record / target / weight arrays as slice_move out of a larger allocation, reversed rows of a reversed copy, every second row of an allocation whose other rows hold poison, column-major (records and 2-d targets) - each alone and all together; the layout is hidden state of the successors that keep the source's arrays; any poison value in any result is a violation; \
+         plus seeds whose targets have element type bool / &'static str / String / i64 (the operations linfa defines for that type); \
+         plus single transitions on datasets of 1025 (thorough: and 4097) rows x 2 features (standard, every-second-row, column-major): both splits at all ratios, shuffle, bootstrap_samples(n and 1025), bootstrap_features, with_labels, one_vs_all / target_iter, sample_chunks(1, 1024, 1025, n), sample_iter, feature_iter, to_owned, map_targets, fold(3); \
          actions (real API, on the owned value and on .view()): owned and view split_with_ratio for r in {0,.25,1/3,.5,.7,1} (both parts successors), shuffle, bootstrap_samples(m=1..3, and two consecutive items), \
          bootstrap_features(q=1..2, and two consecutive items), bootstrap((2,2)) — all under a scripted generator whose scripts are enumerated exhaustively up to the stated caps (catalogue above) —, \
          with_labels(S) for every non-empty S of {0,1,2}, one_vs_all (every view a successor), map_targets(+1), to_owned, view, into_single_target, sample_chunks(1..3), sample_iter, target_iter, feature_iter, fold(2..3); \
@@ -239,7 +242,7 @@ fn main() {
     ctx.assume("split size = ceil of the single-precision product, computed as ((n as f64 * r as f64) as f32).ceil() (exact double product, one rounding); discrete outputs are compared exactly, no tolerance anywhere");
     ctx.assume("weights / names are only checked when the result carries them (statement: 'whenever the result carries weights or names'); dropping them is accepted except for with_labels, whose rustdoc promises that weights and feature names are preserved");
     ctx.assume("randomised operations are held to their contract only (shuffle: permutation of all rows; bootstrap: existing rows / features, requested shape, row alignment); the scripted generator relies on rand 0.8's widening-multiply range mapping only for coverage (scripts_honoured is measured, never judged)");
-    ctx.assume("domain: bootstrap needs n >= 1 and f >= 1 (nothing to draw otherwise), fold(k) needs k <= n, sample_chunks(c) needs c >= 1, target_iter needs 2-d targets (documented), into_single_target needs a 2-d single column (documented); owned split_with_ratio on column-major records must panic as documented; sample_chunks yields floor(n/c) full chunks (tail dropped, as iter_fold relies on)");
+    ctx.assume("domain: bootstrap needs n >= 1 and f >= 1 (nothing to draw otherwise), fold(k) needs k <= n, sample_chunks(c) needs c >= 1, target_iter needs 2-d targets (documented), into_single_target needs a 2-d single column (documented); owned split_with_ratio on records or targets that are not row-major (column-major, reversed, strided) must panic as documented (counted in documented_panics_checked); sample_chunks yields floor(n/c) full chunks (tail dropped, as iter_fold relies on)");
     ctx.assume(&format!("bounds: depth {} (+{} for seeds with n <= 3); shuffle scripts exhaustive while n! <= {}, bootstrap index vectors exhaustive while their number <= {}", depth, deep_extra, cfg.shuffle_cap, cfg.boot_cap));
 
     // ---------------- seeds ----------------
@@ -262,24 +265,30 @@ fn main() {
             }
         }
     }
-    // seeds whose owned arrays are `slice_move`s out of larger allocations (poison rows around them):
-    // all three containers sliced, only the targets, only the weights
+    // ---- memory layouts: the same logical datasets with every container in a non-standard layout
     let tight = seeds.len();
-    for &n in &[1usize, 3, 5] {
+    let mut combos: Vec<(Lay, Lay, Lay)> = Vec::new();
+    for l in [Lay::Sliced, Lay::Reversed, Lay::EverySecond] {
+        combos.extend([(l, l, l), (l, Lay::Std, Lay::Std), (Lay::Std, l, Lay::Std), (Lay::Std, Lay::Std, l)]);
+    }
+    combos.extend([(Lay::ColMajor, Lay::ColMajor, Lay::Std), (Lay::ColMajor, Lay::Std, Lay::Std), (Lay::Std, Lay::ColMajor, Lay::Std)]);
+    let layout_ns: &[usize] = if ctx.quick() { &[3, 5] } else { &[1, 3, 5] };
+    for &n in layout_ns {
         for &f in &[1usize, 3] {
             for t in ["ix1", "ix2x1", "ix2x2"] {
                 for w in [false, true] {
-                    for (pr, pt, pw) in [(true, true, true), (false, true, false), (false, false, true), (true, false, false)] {
-                        if (pw && !w) && !(pr || pt) {
-                            continue;
-                        }
-                        if (pr, pt, pw) == (true, false, false) && ctx.quick() {
+                    for &(lr, lt, lw) in &combos {
+                        // quick: the n = 5 datasets only in the "everything" combinations
+                        let everything = lr == lt && (lr == lw || lr == Lay::ColMajor);
+                        // and, to stay inside the quick budget, only weighted datasets; one feature
+                        // column only in the "everything" combinations
+                        if ctx.quick() && ((n == 5 && !everything) || !w || (f == 1 && !everything)) {
                             continue;
                         }
                         let mut s = seed(n, f, t, "cyc", w, false);
-                        s.pad_rec = pr;
-                        s.pad_tgt = pt;
-                        s.pad_w = pw && w;
+                        s.lr = if lr == Lay::ColMajor && (n <= 1 || f <= 1) { Lay::Std } else { lr };
+                        s.lt = if lt == Lay::ColMajor && (n <= 1 || s.nt <= 1) { Lay::Std } else { lt };
+                        s.lw = if w { lw } else { Lay::Std };
                         if !seeds.contains(&s) {
                             seeds.push(s);
                         }
@@ -288,8 +297,31 @@ fn main() {
             }
         }
     }
+    let n_layout_seeds = seeds.len() - tight;
+    // ---- element types of the targets
+    let before_types = seeds.len();
+    for lt in ["bool", "str", "string", "i64"] {
+        let type_ns: &[usize] = if ctx.quick() { &[3] } else { &[2, 5] };
+        for &n in type_ns {
+            for t in ["ix1", "ix2x1", "ix2x2"] {
+                for w in [false, true] {
+                    let mut s = seed(n, 3, t, if lt == "bool" { "bin" } else { "cyc" }, w, true);
+                    s.ltype = lt.to_string();
+                    seeds.push(s.clone());
+                    if w && n >= 3 && lt != "bool" {
+                        // one layout combination per type (bool cannot carry a poison label)
+                        s.lr = Lay::EverySecond;
+                        s.lt = Lay::EverySecond;
+                        s.lw = Lay::Sliced;
+                        seeds.push(s);
+                    }
+                }
+            }
+        }
+    }
     ctx.extra("seeds", json!(seeds.len()));
-    ctx.extra("seeds_with_arrays_sliced_from_larger_allocations", json!(seeds.len() - tight));
+    ctx.extra("seeds_with_non_standard_memory_layout", json!(n_layout_seeds));
+    ctx.extra("seeds_with_other_target_element_types", json!(seeds.len() - before_types));
 
     let stats = Stats::default();
     let done = AtomicU64::new(0);
@@ -307,6 +339,84 @@ fn main() {
         }
         ctx.sample(|| json!({"seed": s, "depth": d, "states": st.states, "transitions": st.transitions, "first_actions": actions_of(s, &cfg).iter().take(3).collect::<Vec<_>>()}));
     });
+    // ---------------- large datasets (size thresholds): single transitions, same oracle ----------------
+    let big_ns: Vec<usize> = if ctx.quick() { vec![1025] } else { vec![1025, 4097] };
+    let mut big: Vec<(Model, Act)> = Vec::new();
+    for &n in &big_ns {
+        for t in ["ix1", "ix2x2"] {
+            let mut lays = vec![(Lay::Std, Lay::Std, Lay::Std)];
+            if ctx.thorough() || t == "ix1" {
+                lays.push((Lay::EverySecond, Lay::EverySecond, Lay::Sliced));
+            }
+            if ctx.thorough() {
+                lays.push((Lay::ColMajor, Lay::ColMajor, Lay::Std));
+            }
+            for (lr, lt, lw) in lays {
+                let mut m = seed(n, 2, t, "cyc", true, true);
+                m.lr = lr;
+                m.lt = if lt == Lay::ColMajor && !m.t2 { Lay::Std } else { lt };
+                m.lw = lw;
+                let mut acts: Vec<Act> = Vec::new();
+                for r in 0..RATIOS.len() {
+                    acts.push(Act::SplitOwned { r });
+                    acts.push(Act::SplitView { r });
+                }
+                for view in [false, true] {
+                    for script in shuffle_scripts(n, 0) {
+                        acts.push(Act::Shuffle { view, script });
+                    }
+                    for script in draw_scripts(n, n, 0) {
+                        acts.push(Act::BootSamples { view, m: n, items: 1, script });
+                    }
+                    for script in draw_scripts(n, 1025, 0) {
+                        acts.push(Act::BootSamples { view, m: 1025, items: 1, script });
+                    }
+                    for script in draw_scripts(2, 2, 4) {
+                        acts.push(Act::BootFeatures { view, q: 2, items: 1, script });
+                    }
+                    for sub in en::subsets_upto(3, 1, 3) {
+                        acts.push(Act::WithLabels { view, labels: sub });
+                    }
+                    if m.t2 {
+                        acts.push(Act::TargetIter { view });
+                    } else {
+                        acts.push(Act::OneVsAll { view });
+                    }
+                    for c in [1usize, 1024, 1025, n] {
+                        acts.push(Act::Chunks { view, c });
+                    }
+                    acts.push(Act::SampleIter { view });
+                    acts.push(Act::FeatureIter { view });
+                    acts.push(Act::ToOwned { view });
+                    acts.push(Act::MapTargets { view });
+                    acts.push(Act::Fold { view, k: 3 });
+                }
+                acts.dedup();
+                for a in acts {
+                    big.push((m.clone(), a));
+                }
+            }
+        }
+    }
+    let big_done = AtomicU64::new(0);
+    par_sweep(&ctx, "large datasets", &big, |(m, a)| {
+        let o = oracle::step(m, a, &[]);
+        ctx.eval(true);
+        ctx.add_states(0, 1, 1);
+        stats.produced.fetch_add(o.produced as u64, Ordering::Relaxed);
+        stats.expected_panics.fetch_add(o.expected_panic as u64, Ordering::Relaxed);
+        if let Some(h) = o.script_honoured {
+            stats.scripted.fetch_add(1, Ordering::Relaxed);
+            stats.scripts_honoured.fetch_add(h as u64, Ordering::Relaxed);
+        }
+        ctx.violations(o.viols);
+        big_done.fetch_add(1, Ordering::Relaxed);
+    });
+    ctx.extra("large_dataset_rows", json!(big_ns));
+    ctx.extra("large_dataset_transitions", json!(big_done.load(Ordering::Relaxed)));
+    if big_done.load(Ordering::Relaxed) != big.len() as u64 {
+        ctx.capped("not every large-dataset transition was run");
+    }
     let global = stats.global_states.lock().unwrap().len() as u64;
     ctx.add_states(global, 0, 0);
     ctx.extra("seeds_completed", json!(done.load(Ordering::Relaxed)));
